@@ -99,8 +99,13 @@ def loop : Nat → WState → Out (List Off)
     | [] => .ok s.reach
     | entries :: queue => loop fuel (visit { s with queue := queue } entries)
 
-/-- `sort_unstable` (the keys are distinct, so stability is irrelevant) -/
-def sortOffs (l : List Off) : List Off := l.mergeSort (fun a b => decide (a ≤ b))
+def insertOff (a : Off) : List Off → List Off
+  | [] => [a]
+  | b :: l => if a ≤ b then a :: b :: l else b :: insertOff a l
+
+/-- `sort_unstable`: ascending order (the keys are distinct, so every correct sorting algorithm
+returns the same list; an insertion sort keeps the definition kernel-evaluable) -/
+def sortOffs (l : List Off) : List Off := l.foldr insertOff []
 
 def getReachableFuel (fuel : Nat) (d : Deps) : Out (List Off) :=
   (loop fuel ⟨d.edges, [], [d.required]⟩).map sortOffs
